@@ -67,6 +67,15 @@ macro_rules! each_enc {
             else { each_enc!(@emit $out, $prop, $ag, "stable", h, build_stable::<Undirected, $E>($ag, h, $rng), |$g, $fwd, $inv| $body) }
         }
     };
+    (@one graphd, $E:ty, $out:expr, $prop:expr, $ag:expr, $rng:expr, |$g:ident, $fwd:ident, $inv:ident| $body:expr) => {
+        if $ag.directed { for h in 0..3 { each_enc!(@emit $out, $prop, $ag, "graph", h, build_graph::<Directed, $E>($ag, h, $rng), |$g, $fwd, $inv| $body) } }
+    };
+    (@one graphu, $E:ty, $out:expr, $prop:expr, $ag:expr, $rng:expr, |$g:ident, $fwd:ident, $inv:ident| $body:expr) => {
+        if !$ag.directed { for h in 0..3 { each_enc!(@emit $out, $prop, $ag, "graph", h, build_graph::<Undirected, $E>($ag, h, $rng), |$g, $fwd, $inv| $body) } }
+    };
+    (@one stabled, $E:ty, $out:expr, $prop:expr, $ag:expr, $rng:expr, |$g:ident, $fwd:ident, $inv:ident| $body:expr) => {
+        if $ag.directed { for h in 0..3 { each_enc!(@emit $out, $prop, $ag, "stable", h, build_stable::<Directed, $E>($ag, h, $rng), |$g, $fwd, $inv| $body) } }
+    };
     (@one matrixd, $E:ty, $out:expr, $prop:expr, $ag:expr, $rng:expr, |$g:ident, $fwd:ident, $inv:ident| $body:expr) => {
         if $ag.is_simple() && $ag.directed {
             for h in 0..3 {
@@ -731,6 +740,166 @@ pub fn c13_sweep(seed: u64, pairs: usize, out: &mut Out) {
     }
 }
 
+// ------------------------------------------------------------------------------------------ C20
+
+fn c20_und<G>(g: G, fwd: &[G::NodeId], inv: &std::collections::HashMap<G::NodeId, usize>, f: &mut Fields)
+where
+    G: IntoEdges + IntoNodeIdentifiers + Visitable + NodeIndexable + Copy,
+    G::NodeId: Eq + std::hash::Hash + Copy,
+{
+    f.insert("color".into(), run(|| {
+        let (m, k) = algo::dsatur_coloring(g);
+        json!({"k": k, "c": fwd.iter().map(|v| m.get(v).map(|&c| c as i64).unwrap_or(-1)).collect::<Vec<_>>(), "extra": m.len() as i64 - fwd.len() as i64})
+    }));
+    let _ = inv;
+}
+fn c20_cliques<G>(g: G, inv: &std::collections::HashMap<G::NodeId, usize>, f: &mut Fields)
+where
+    G: GetAdjacencyMatrix + IntoNodeIdentifiers + IntoNeighbors + Copy,
+    G::NodeId: Eq + std::hash::Hash + Copy,
+{
+    f.insert("cliques".into(), run(|| json!(algo::maximal_cliques(g).iter().map(|c| { let mut v: Vec<usize> = c.iter().map(|x| inv[x]).collect(); v.sort(); v }).collect::<Vec<_>>())));
+}
+fn c20_fas<G>(g: G, inv: &std::collections::HashMap<G::NodeId, usize>, f: &mut Fields)
+where
+    G: IntoEdgeReferences + GraphProp<EdgeType = Directed> + NodeCount + Copy,
+    G::NodeId: petgraph::graph::GraphIndex + Eq + std::hash::Hash,
+    G::EdgeWeight: EW,
+{
+    f.insert("fas".into(), run(|| json!(algo::greedy_feedback_arc_set(g).map(|e| json!([inv[&e.source()], inv[&e.target()], e.weight().to_i64()])).collect::<Vec<_>>())));
+}
+fn c20_paths<G>(g: G, fwd: &[G::NodeId], inv: &std::collections::HashMap<G::NodeId, usize>, f: &mut Fields, rng: &mut Rng)
+where
+    G: NodeCount + IntoNeighborsDirected + Copy,
+    G::NodeId: Eq + std::hash::Hash + Copy,
+{
+    let n = fwd.len();
+    if n < 2 {
+        return;
+    }
+    let mut cases = vec![];
+    for _ in 0..4 {
+        let a = rng.below(n);
+        let mut b = rng.below(n);
+        if b == a { b = (a + 1) % n; }
+        let min = rng.below(3);
+        let max = if rng.chance(1, 3) { None } else { Some(min + rng.below(3)) };
+        cases.push((a, b, min, max));
+    }
+    f.insert("paths".into(), run(|| json!(cases.iter().map(|&(a, b, min, max)| {
+        let ps: Vec<Vec<G::NodeId>> = algo::all_simple_paths::<Vec<_>, _, std::collections::hash_map::RandomState>(g, fwd[a], fwd[b], min, max).take(3000).collect();
+        json!({"a": a, "b": b, "min": min, "max": max.map(|x| x as i64).unwrap_or(-1), "ps": ps.iter().map(|p| p.iter().map(|x| inv[x]).collect::<Vec<_>>()).collect::<Vec<_>>()})
+    }).collect::<Vec<_>>())));
+}
+fn c20_pagerank<G>(g: G, fwd: &[G::NodeId], f: &mut Fields, reference: &mut Option<Vec<i64>>)
+where
+    G: NodeCount + IntoEdges + NodeIndexable + Copy,
+    G::NodeId: Copy,
+{
+    f.insert("pr".into(), run(|| {
+        let r: Vec<f64> = algo::page_rank(g, 0.85f64, 30);
+        // one rank per node index: report the rank of each abstract node and the vector length
+        let mine: Vec<i64> = fwd.iter().map(|&v| r.get(g.to_index(v)).map(|x| (x * 1e6).round() as i64).unwrap_or(-777)).collect();
+        // ranks of the first encoding of this abstract graph: every other encoding / relabelling must agree
+        if reference.is_none() && r.len() == g.node_bound() { *reference = Some(mine.clone()); }
+        json!({"len": r.len(), "bound": g.node_bound(), "r": mine, "ref": reference.clone().unwrap_or_default(),
+               "neg": r.iter().any(|x| *x < 0.0), "sum": (r.iter().sum::<f64>() * 1e6).round() as i64})
+    }));
+}
+
+pub fn c20_graph(out: &mut Out, ag: &AG, rng: &mut Rng) {
+    let simple_noloop = ag.is_simple() && !ag.has_loop();
+    if !ag.directed && simple_noloop {
+        each_enc!(out, "C20", ag, rng, [graph, stable, map, csr], |g, fwd, inv| {
+            let mut f = Fields::new();
+            c20_und(&g, &fwd, &inv, &mut f);
+            c20_cliques(&g, &inv, &mut f);
+            f
+        });
+        each_enc!(out, "C20", ag, rng, [matrixu], |g, fwd, inv| {
+            let mut f = Fields::new();
+            c20_und(&g, &fwd, &inv, &mut f);
+            c20_cliques(&g, &inv, &mut f);
+            f
+        });
+        // steiner_tree: UnGraph only, connected graphs, positive weights
+        let ug = AG { n: ag.n, directed: false, edges: ag.edges.iter().map(|&(s, t, w)| (s, t, w.abs() + 1)).collect() };
+        let connected = {
+            let mut comp: Vec<usize> = (0..ug.n).collect();
+            for _ in 0..ug.n { for &(s, t, _) in &ug.edges { let m = comp[s].min(comp[t]); comp[s] = m; comp[t] = m; } }
+            comp.iter().all(|&c| c == 0)
+        };
+        if connected && ug.n >= 2 && ug.n <= 6 {
+            let mut r2 = rng.clone();
+            each_enc!(out, "C20", &ug, rng, i32, [graphu], |g, fwd, _inv| {
+                let mut f = Fields::new();
+                {
+                    let g = &g;
+                    let mut cases = vec![];
+                    let mut r3 = r2.clone();
+                    for _ in 0..3 {
+                        let mut t: Vec<usize> = (0..ug.n).filter(|_| r3.chance(1, 2)).collect();
+                        if t.len() < 2 { t = vec![0, ug.n - 1]; }
+                        cases.push(t);
+                    }
+                    f.insert("steiner".into(), run(|| json!(cases.iter().map(|t| {
+                        let terms: Vec<_> = t.iter().map(|&i| fwd[i]).collect();
+                        let st = algo::steiner_tree::steiner_tree(g, &terms);
+                        // the result keeps the input graph's node indices
+                        let mut b = vec![usize::MAX; g.node_count()];
+                        for (i, x) in fwd.iter().enumerate() { b[x.index()] = i; }
+                        json!({"terms": t,
+                               "nodes": st.node_indices().map(|i| b[i.index()]).collect::<Vec<_>>(),
+                               "edges": st.edge_references().map(|e| json!([b[e.source().index()], b[e.target().index()], *e.weight()])).collect::<Vec<_>>()})
+                    }).collect::<Vec<_>>())));
+                }
+                f
+            });
+            r2.next();
+        }
+    }
+    if ag.directed {
+        let mut r2 = rng.clone();
+        let mut prref: Option<Vec<i64>> = None;
+        each_enc!(out, "C20", ag, rng, [graphd, stabled], |g, fwd, inv| {
+            let mut f = Fields::new();
+            c20_fas(&g, &inv, &mut f);
+            c20_paths(&g, &fwd, &inv, &mut f, &mut r2.clone());
+            c20_pagerank(&g, &fwd, &mut f, &mut prref);
+            f
+        });
+        each_enc!(out, "C20", ag, rng, [map, matrixd], |g, fwd, inv| {
+            let mut f = Fields::new();
+            c20_paths(&g, &fwd, &inv, &mut f, &mut r2.clone());
+            c20_pagerank(&g, &fwd, &mut f, &mut prref);
+            f
+        });
+        each_enc!(out, "C20", ag, rng, [csr, list], |g, fwd, _inv| {
+            let mut f = Fields::new();
+            c20_pagerank(&g, &fwd, &mut f, &mut prref);
+            f
+        });
+        r2.next();
+        // transitive reduction / closure of DAGs (Graph only: NodeCompactIndexable with index NodeId)
+        let acyclic = { let (g, _) = build_graph::<Directed, i64>(ag, 0, &mut rng.clone()); !algo::is_cyclic_directed(&g) };
+        if acyclic && ag.is_simple() {
+            each_enc!(out, "C20", ag, rng, [graphd], |g, _fwd, inv| {
+                let mut f = Fields::new();
+                f.insert("tred".into(), run(|| {
+                    let topo = algo::toposort(&g, None).unwrap();
+                    let (res, revmap) = algo::tred::dag_to_toposorted_adjacency_list::<_, u32>(&g, &topo);
+                    let (tr, tc) = algo::tred::dag_transitive_reduction_closure(&res);
+                    let lists = |l: &petgraph::adj::UnweightedList<u32>| (0..l.node_count() as u32).map(|i| l.neighbors(i).map(|x| x as usize).collect::<Vec<_>>()).collect::<Vec<_>>();
+                    json!({"topo": topo.iter().map(|x| inv[x]).collect::<Vec<_>>(),
+                           "revmap": g.node_indices().map(|i| (inv[&i], revmap[i.index()] as usize)).collect::<std::collections::BTreeMap<_, _>>().values().cloned().collect::<Vec<_>>(),
+                           "res": lists(&res), "tred": lists(&tr), "tclos": lists(&tc)})
+                }));
+                f
+            });
+        }
+    }
+}
+
 pub fn prop_fn(prop: &str) -> fn(&mut Out, &AG, &mut Rng) {
     match prop {
         "C09" => c09_graph,
@@ -739,6 +908,7 @@ pub fn prop_fn(prop: &str) -> fn(&mut Out, &AG, &mut Rng) {
         "C12" => c12_graph,
         "C16" => c16_graph,
         "C15" => c15_graph,
+        "C20" => c20_graph,
         _ => panic!("unknown property {}", prop),
     }
 }
@@ -772,7 +942,7 @@ pub fn sweep(prop: &str, seed: u64, exhaustive_n: usize, random: usize, nmax: us
     let (wlo, whi) = wrange(prop);
     let f = prop_fn(prop);
     for directed in [true, false] {
-        for n in 1..=exhaustive_n {
+        for n in 0..=exhaustive_n {
             // all graphs with self-loops and up to 2 parallel edges for n <= 2, simple (+loops) for n = 3
             let mult = if n <= 2 { 2 } else { 1 };
             let space = code_space(n, directed, true, mult);
